@@ -54,6 +54,13 @@ class StdCtx(Ctx):
         # `if c { return x; }` followed by the rest of the block  ->  if c then x else rest
         _, stmts, tail = e
         for i, st in enumerate(stmts):
+            # `let x = f(g(y)?);`: the `?` is a statement of its own, in evaluation order
+            if st[0] == 'let' and st[2][0] != 'try' and st[2][0] not in self.STRUCTURAL:
+                tries = self.find_tries(st[2], [])
+                if tries:
+                    self.fresh += 1; q = f'q{self.fresh}'
+                    stmts = stmts[:i] + [('let', ('pbind', q), tries[0]), ('let', st[1], self.subst(st[2], tries[0], ('path', [q])))] + stmts[i + 1:]
+                    return self.block(('block', stmts, tail), env)
             # `let x = match s { p => v, q => return r, … }; rest`  ->  match s { p => (let x = v; rest), q => r, … }
             if st[0] == 'let' and st[2][0] == 'match' and self.has_return(st[2]) and st[1][0] == 'pbind':
                 arms = []
@@ -154,6 +161,9 @@ class StdCtx(Ctx):
             s, t = self.tx(e[1], env)
             if t == 'f64' and e[2] == 'usize': return f'NumX.toUsize {self.paren(s)}', 'usize'
             if t == 'f64' and e[2] == 'u32': return f'NumX.toU32 {self.paren(s)}', 'u32'
+            if t == 'f64' and e[2] == 'i64': return f'NumX.toI64 {self.paren(s)}', 'i64'
+            if t == 'i64' and e[2] == 'f64': return f'NumX.ofInt {self.paren(s)}', 'f64'
+            if t == 'weekday' and e[2] == 'u8': return s, 'u32'                                       # `Weekday as u8`: Monday = 0
             if t == 'char' and e[2] == 'u8': return f'({self.paren(s)}.toNat % 256)', 'u8'                     # `c as u8` truncates to the low byte
             if t == 'ordering' and e[2] == 'i8': return s, 'ordering_i8'
             raise Unrecognised(f'cast of {t} to {e[2]}')
@@ -189,12 +199,35 @@ class StdCtx(Ctx):
         if k == 'binop' and e[1] == '+':
             l, lt = self.tx(e[2], env); r, rt = self.tx(e[3], env)
             if lt == 'str' and rt == 'str': return f'{self.paren(l)} ++ {self.paren(r)}', 'str'
+        if k == 'path' and e[1] == ['MILLISECONDS_PER_DAY']: return 'dayLen', 'f64'
+        if k == 'binop' and e[1] in ('*', '/'):
+            l, lt = self.tx(e[2], env); r, rt = self.tx(e[3], env)
+            if lt == 'f64' and rt == 'f64': return f'NumOps.{ {"*": "mul", "/": "div"}[e[1]] } {self.paren(l)} {self.paren(r)}', 'f64'
+            if lt == 'u32' and rt == 'usize' and e[1] == '/': return f'({l} / {r})', 'u32'
+        if k == 'lit' and e[1] == 'num' and re.fullmatch(r'[\d_]+', e[2]) and '_' in e[2]: return e[2].replace('_', ''), 'usize'
+        if k == 'call' and e[1] == ('path', ['f64', 'from']) and len(e[2]) == 1 and not (e[2][0][0] == 'cast' and e[2][0][2] in ('u8', 'i8')) and not (e[2][0][0] == 'call'):
+            x, xt = self.tx(e[2][0], env)
+            if xt == 'i32': return f'NumX.ofInt {self.paren(x)}', 'f64'
+            if xt == 'u32': return f'NumX.ofNat {self.paren(x)}', 'f64'
+        if k == 'call' and e[1] == ('path', ['f64', 'from']) and len(e[2]) == 1 and e[2][0][0] == 'cast' and e[2][0][2] == 'u8' and e[2][0][1][0] == 'mcall' and e[2][0][1][2] == 'weekday':
+            x, xt = self.tx(e[2][0], env)
+            if xt == 'u32': return f'NumX.ofNat {self.paren(x)}', 'f64'
+        if k == 'call' and e[1] == ('path', ['NaiveDateTime', 'try_from']) and len(e[2]) == 1:
+            v, vt = self.tx(e[2][0], env)
+            if vt == 'value': return f'try_from {self.paren(v)}', ('res', 'dt')
+        if k == 'binop' and e[1] in ('==', '!=') and e[3][0] == 'lit' and e[3][1] == 'num' and re.fullmatch(r'\d+', e[3][2]):
+            l, lt = self.tx(e[2], env)
+            if lt == 'i32': return (f'({l} == {e[3][2]})' if e[1] == '==' else f'({l} != {e[3][2]})'), 'bool'
+        if k == 'binop' and e[1] == '%' and e[3][0] == 'lit' and e[3][1] == 'num' and re.fullmatch(r'\d+', e[3][2]):
+            l, lt = self.tx(e[2], env)
+            if lt == 'i32': return f'{self.paren(l)} % {e[3][2]}', 'i32'
         if k == 'call' and e[1] == ('path', ['usize_from_f64']) and len(e[2]) == 1:
             s, t = self.tx(e[2][0], env)
             if t == 'f64': return f'NumX.floorUsize {self.paren(s)}', 'usize'
         if k == 'path' and e[1] == ['STRING_OFFSET']: return 'NumX.ofNat off', 'f64'
         if k == 'unop' and e[1] == '-' and e[2] == ('lit', 'num', '1.0'): return 'NumX.ofInt (-1)', 'f64'
         if k == 'lit' and e[1] == 'str' and e[2] == '""': return '([] : Str)', 'str'
+        if k == 'lit' and e[1] == 'num' and e[2] == '0.0': return '(NumOps.zero : N)', 'f64'
         if k == 'binop' and e[1] == '+':
             l, lt = self.tx(e[2], env); r, rt = self.tx(e[3], env)
             if lt == 'f64' and rt == 'f64': return f'NumOps.add {self.paren(l)} {self.paren(r)}', 'f64'
@@ -281,6 +314,64 @@ class StdCtx(Ctx):
         if name == 'replace' and len(args) == 2:
             s, t = self.tx(recv, env); a, at = self.tx(args[0], env); b, bt = self.tx(args[1], env)
             if t == 'str' and at == 'str' and bt == 'str': return f'Seq.replaceSeq {self.paren(a)} {self.paren(b)} {self.paren(s)}', 'str'
+        # ---- chrono, as far as the core of src/stdlib/time.rs calls it: a NaiveDateTime is the model's `DT` (days since 1970-01-01 + millisecond of the day) -------
+        if not args and name in ('year', 'month', 'day', 'hour', 'minute', 'second', 'weekday', 'nanosecond'):
+            d, dt = self.tx(recv, env)
+            if dt == 'dt':
+                return {'year': (f'{self.paren(d)}.year', 'i32'), 'month': (f'{self.paren(d)}.month', 'u32'), 'day': (f'{self.paren(d)}.day', 'u32'), 'hour': (f'{self.paren(d)}.hour', 'u32'),
+                        'minute': (f'{self.paren(d)}.minute', 'u32'), 'second': (f'{self.paren(d)}.second', 'u32'), 'weekday': (f'weekday {self.paren(d)}.days', 'weekday'),
+                        'nanosecond': (f'({self.paren(d)}.milli * 1000000)', 'u32')}[name]          # the model keeps whole milliseconds (the conversion rounds to them)
+        # `DateTime::from_timestamp_millis(ms).map(|dt| dt.naive_utc())`: the UTC date-time of that millisecond, None outside chrono's year range
+        if name == 'map' and args == [('closure', [('pbind', 'dt')], ('mcall', ('path', ['dt']), 'naive_utc', None, []))] and recv[0] == 'call' \
+           and recv[1] == ('path', ['DateTime', 'from_timestamp_millis']) and len(recv[2]) == 1:
+            m, mt = self.tx(recv[2][0], env)
+            if mt == 'i64': return f'ofMillis {self.paren(m)}', ('opt', 'dt')
+        if name == 'map' and len(args) == 1 and args[0][0] == 'closure' and len(args[0][1]) == 1:
+            r0, t0 = self.tx(recv, env)
+            if isinstance(t0, tuple) and t0[0] == 'res':
+                env1 = dict(env); pp = self.pat(args[0][1][0], t0[1], env1); b, bt = self.tx(args[0][2], env1)
+                return f'Except.map (fun {pp} => {b}) {self.paren(r0)}', ('res', bt)
+        if name == 'timestamp_millis' and not args and recv[0] == 'mcall' and recv[2] == 'and_utc' and not recv[4]:
+            d, dt = self.tx(recv[1], env)
+            if dt == 'dt': return f'{self.paren(d)}.totalMs', 'i64'
+        if name == 'round' and not args:
+            x, xt = self.tx(recv, env)
+            if xt == 'f64': return f'NumX.round {self.paren(x)}', 'f64'
+        # ---- regex-lite, as far as src/stdlib/regex.rs calls it: the operations of the model's abstract `Regex.Engine` --------------------------------
+        if name == 'map_err' and recv[0] == 'call' and recv[1] == ('path', ['Regex', 'new']) and len(recv[2]) == 1 \
+           and args == [('closure', [('pbind', 'e')], ('call', ('path', ['NativeError', 'from']), [('mcall', ('path', ['e']), 'to_string', None, [])]))]:
+            p, pt = self.tx(recv[2][0], env)
+            if pt == 'str': return f'(match E.compile {self.paren(p)} with | .ok re => .ok re | .error msg => .error (.custom msg))', ('res', 're')
+        if name == 'is_match' and len(args) == 1:
+            r, rt = self.tx(recv, env); h, ht = self.tx(args[0], env)
+            if rt == 're' and ht == 'str': return f'E.isMatch {self.paren(r)} {self.paren(h)}', 'bool'
+        if name == 'captures_len' and not args:
+            r, rt = self.tx(recv, env)
+            if rt == 're': return f'E.capturesLen {self.paren(r)}', 'usize'
+        # `re.find_iter(h).map(|m| Value::String(m.as_str().to_string())).collect()`
+        if name == 'collect' and not args and recv[0] == 'mcall' and recv[2] == 'map' and recv[1][0] == 'mcall' and recv[1][2] == 'find_iter' and len(recv[1][4]) == 1 \
+           and recv[4] == [('closure', [('pbind', 'm')], ('call', ('path', ['Value', 'String']), [('mcall', ('mcall', ('path', ['m']), 'as_str', None, []), 'to_string', None, [])]))]:
+            r, rt = self.tx(recv[1][1], env); h, ht = self.tx(recv[1][4][0], env)
+            if rt == 're' and ht == 'str': return f'List.map Value.str (E.findIter {self.paren(r)} {self.paren(h)})', 'values'
+        # `captures.iter().map(|c| c.map_or("", |m| m.as_str())).map(|m| Value::String(m.to_string())).collect()`: every group, "" for a group that did not take part
+        if name == 'collect' and not args and recv[0] == 'mcall' and recv[2] == 'map' and recv[4] == [('closure', [('pbind', 'm')], ('call', ('path', ['Value', 'String']), [('mcall', ('path', ['m']), 'to_string', None, [])]))] \
+           and recv[1][0] == 'mcall' and recv[1][2] == 'map' and recv[1][4] == [('closure', [('pbind', 'c')], ('mcall', ('path', ['c']), 'map_or', None, [('lit', 'str', '""'), ('closure', [('pbind', 'm')], ('mcall', ('path', ['m']), 'as_str', None, []))]))] \
+           and recv[1][1][0] == 'mcall' and recv[1][1][2] == 'iter' and not recv[1][1][4]:
+            c, ct = self.tx(recv[1][1][1], env)
+            if ct == 'caps': return f'List.map (fun c => Value.str (Option.getD c [])) {self.paren(c)}', 'values'
+        # `re.captures(h).map_or_else(|| vec![Value::String(String::new()); re.captures_len()], get_capture_groups)`
+        if name == 'map_or_else' and len(args) == 2 and recv[0] == 'mcall' and recv[2] == 'captures' and len(recv[4]) == 1 and args[1] == ('path', ['get_capture_groups']) \
+           and args[0][0] == 'closure' and not args[0][1] and args[0][2][0] == 'macro' and args[0][2][1] == 'vec':
+            toks = [t[1] for t in args[0][2][2]]
+            if toks[:9] != ['Value', '::', 'String', '(', 'String', '::', 'new', '(', ')'] or toks[9:11] != [')', ';']: raise Unrecognised('vec! of empty strings')
+            from rsparse import P
+            q = P(args[0][2][2][11:]); cnt = q.expr()
+            r, rt = self.tx(recv[1], env); h, ht = self.tx(recv[4][0], env); n, nt = self.tx(cnt, env)
+            if rt == 're' and ht == 'str' and nt == 'usize':
+                return f'(match E.captures {self.paren(r)} {self.paren(h)} with | none => List.replicate {self.paren(n)} (Value.str []) | some cs => get_capture_groups E cs)', 'values'
+        if name == 'to_string' and not args and recv[0] == 'mcall' and recv[2] == 'replacen' and len(recv[4]) == 3:
+            r, rt = self.tx(recv[1], env); h, ht = self.tx(recv[4][0], env); l, lt = self.tx(recv[4][1], env); x, xt = self.tx(recv[4][2], env)
+            if rt == 're' and ht == 'str' and lt == 'usize' and xt == 'str': return f'E.replacen {self.paren(r)} {self.paren(h)} {self.paren(l)} {self.paren(x)}', 'str'
         # `(0.0..=127.0).contains(x)`: the closed ASCII range test of NumX
         if name == 'contains' and len(args) == 1 and recv == ('binop', '..=', ('lit', 'num', '0.0'), ('lit', 'num', '127.0')):
             a, at = self.tx(args[0], env)
@@ -430,8 +521,50 @@ def gen_stdlib(srcdir):
             'import SlacModel.Stdlib\nimport SlacModel.StdOrder\nset_option autoImplicit false\nnamespace Slac.Generated.SrcStdlib\nopen Slac\nvariable {N : Type} [NumX N]\n\n')
     return head + '\n'.join(out) + '\nend Slac.Generated.SrcStdlib\n'
 
+def gen_time(srcdir):
+    """the core of src/stdlib/time.rs: the two conversions between a datetime NUMBER and chrono's NaiveDateTime, and the component builtins.  A NaiveDateTime is the
+    model's `DT` (SlacModel/TimeCore.lean: days since 1970-01-01 and millisecond of the day; chrono's calendar = the proved civil-from-days arithmetic)"""
+    tm = strip_tests(open(os.path.join(srcdir, 'stdlib', 'time.rs')).read())
+    if not re.search(r'const\s+MILLISECONDS_PER_DAY\s*:\s*f64\s*=\s*24\.\s*\*\s*60\.\s*\*\s*60\.\s*\*\s*1000\.\s*;', tm): raise Unrecognised('MILLISECONDS_PER_DAY')
+    RUST_TYPE.update({'&[Value]': 'values', '&Value': 'value', 'NaiveDateTime': 'dt', 'Result <Self , Self::Error>': ('res', 'dt'), 'Self': 'value'})
+    LEAN_TYPE.update({'dt': 'DT', 'nerr': 'NativeError', 'i64': 'Int', 'i32': 'Int', 'u32': 'Nat'})
+    c = StdCtx(RERR, 'NativeError', selfty=None, module_fns={})
+    out = []
+    d, aux = c.pure_fn(find_fn(tm, 'try_from', after='impl TryFrom < & Value > for NaiveDateTime'), 'try_from')
+    out += aux + ['/-- `impl TryFrom<&Value> for NaiveDateTime` (src/stdlib/time.rs) -/\n' + d + '\n']
+    f = find_fn(tm, 'from', after='impl From < NaiveDateTime > for Value'); f['ret'] = 'Self'
+    d, aux = c.pure_fn(f, 'from_datetime')
+    out += aux + ['/-- `impl From<NaiveDateTime> for Value` (src/stdlib/time.rs) -/\n' + d + '\n']
+    for rust in ('year', 'month', 'day', 'hour', 'minute', 'second', 'millisecond', 'day_of_week', 'is_leap_year'):
+        d, aux = c.pure_fn(find_fn(tm, rust), rust)
+        out += aux + [f'/-- `{rust}` (src/stdlib/time.rs) -/\n' + d + '\n']
+    head = ('/-\n  SlacModel.Generated.SrcTime — GENERATED on every check run by /verif/tools/rs2lean_stdlib.py from the CURRENT text of /repo/src/stdlib/time.rs\n'
+            '  (the number <-> NaiveDateTime conversions and the component builtins).  Do not edit.  SlacProps/C16Source.lean proves SlacModel/TimeCore.lean equal to these functions.\n-/\n'
+            'import SlacModel.TimeCore\nset_option autoImplicit false\nset_option linter.unusedVariables false\nnamespace Slac.Generated.SrcTime\nopen Slac Slac.Time\nvariable {N : Type} [NumX N]\n\n')
+    return head + '\n'.join(out) + '\nend Slac.Generated.SrcTime\n'
+
+def gen_regex(srcdir):
+    """src/stdlib/regex.rs: the four wrappers (and get_capture_groups) over the model's abstract `Regex.Engine` (SlacModel/Regex.lean lists exactly the
+    regex-lite operations the wrappers call: Regex::new, is_match, find_iter + as_str, captures (group 0 first, a group that did not take part = None),
+    captures_len, replacen)"""
+    rx = strip_tests(open(os.path.join(srcdir, 'stdlib', 'regex.rs')).read()); mod = strip_tests(open(os.path.join(srcdir, 'stdlib', 'mod.rs')).read())
+    RUST_TYPE.update({'f64': 'f64', '&[Value]': 'values', 'Captures': 'caps', 'Vec <Value>': 'values', 'Result <usize , NativeError>': ('res', 'usize'), "&'a [Value]": 'values', "&'a str": 'str',
+                      "Result <&'a str , NativeError>": ('res', 'str'), 'Result <f64 , NativeError>': ('res', 'f64')})
+    LEAN_TYPE.update({'caps': 'List (Option Str)', 're': 'Re', 'engine': 'Regex.Engine Re', 'nerr': 'NativeError'})
+    fns = {'default_string': ('SrcStdlib.default_string', ['values', 'usize', 'str'], ('res', 'str')), 'default_number': ('SrcStdlib.default_number', ['values', 'usize', 'f64'], ('res', 'f64')),
+           'get_capture_groups': ('get_capture_groups E', ['caps'], 'values')}
+    c = StdCtx(RERR, 'NativeError', selfty=None, module_fns=fns)
+    out = []
+    for rust, lean in (('get_capture_groups', 'get_capture_groups'), ('is_match', 'is_match'), ('find', 'find'), ('capture', 'capture'), ('replace', 'replace')):
+        d, aux = c.pure_fn(find_fn(rx, rust), lean, extra_params=[('E', 'engine')])
+        out += aux + [f'/-- `{rust}` (src/stdlib/regex.rs) -/\n' + d + '\n']
+    head = ('/-\n  SlacModel.Generated.SrcRegex — GENERATED on every check run by /verif/tools/rs2lean_stdlib.py from the CURRENT text of /repo/src/stdlib/regex.rs.\n'
+            '  Do not edit.  SlacProps/C18Source.lean proves the wrapper models of SlacModel/Regex.lean equal to these functions, for every engine.\n-/\n'
+            'import SlacModel.Regex\nimport SlacModel.Generated.SrcStdlib\nset_option autoImplicit false\nset_option linter.unusedVariables false\nnamespace Slac.Generated.SrcRegex\nopen Slac\nvariable {N : Type} [NumX N] {Re : Type}\n\n')
+    return head + '\n'.join(out) + '\nend Slac.Generated.SrcRegex\n'
+
 if __name__ == '__main__':
     a = sys.argv[1:]
     src = a[a.index('--src') + 1] if '--src' in a else '/repo/src'
-    try: print(gen_stdlib(src))
+    try: print(gen_regex(src) if '--regex' in a else gen_time(src) if '--time' in a else gen_stdlib(src))
     except Unrecognised as e: print('unrecognised:', e); sys.exit(3)
